@@ -24,6 +24,7 @@ const stringAxioms = `
 (assert (forall ((c Int)) (! (=> (not (and (<= 0 c) (< c 128))) (and (>= (len (chr c)) 2) (<= (len (chr c)) 4) (>= (at (chr c) 0) 128))) :pattern ((chr c)))))
 (assert (forall ((h (Array Addr Int)) (b Slice)) (! (=> (>= (slen b) 0) (= (len (bytes2str h b)) (slen b))) :pattern ((bytes2str h b)))))
 (assert (forall ((h (Array Addr Int)) (b Slice) (k Int)) (! (=> (and (<= 0 k) (< k (slen b))) (= (at (bytes2str h b) k) (select h (selem b k)))) :pattern ((at (bytes2str h b) k)))))
+(assert (forall ((h1 (Array Addr Int)) (h2 (Array Addr Int)) (b Slice)) (! (=> (forall ((k Int)) (=> (and (<= 0 k) (< k (slen b))) (= (select h1 (selem b k)) (select h2 (selem b k))))) (= (bytes2str h1 b) (bytes2str h2 b))) :pattern ((bytes2str h1 b) (bytes2str h2 b)))))
 (assert (forall ((s Str)) (! (>= (len s) 0) :pattern ((len s)))))
 (assert (forall ((s Str) (k Int)) (! (and (<= 0 (at s k)) (<= (at s k) 255)) :pattern ((at s k)))))
 `
@@ -350,6 +351,7 @@ type job struct {
 	query string
 	light string // same goal with only the quantifier-free, spec-function-free hypotheses
 	fixed string // a ready-made query (vacuity guard on the background theory)
+	preset bool  // decided statically (TAG obligations): no solver run
 }
 
 // lightHyps keeps the quantifier-free hypotheses that mention no defined (possibly recursive) spec function;
@@ -385,6 +387,15 @@ func (w *World) discharge(jobs []*job, timeoutS, workers, nsolvers int, keepDir 
 		panic(err)
 	}
 	defer os.RemoveAll(dir)
+	{
+		var js []*job
+		for _, j := range jobs {
+			if !j.preset {
+				js = append(js, j)
+			}
+		}
+		jobs = js
+	}
 	for _, j := range jobs {
 		if j.fixed != "" {
 			j.query = j.fixed
